@@ -568,11 +568,13 @@ def r9(ctx: Ctx) -> None:
     fe = ctx.func(SATM, "SATManager.evalexpr")
     ce = canon_function(fe, ctx.model)
     e = ("p", 0)
-    loops = [lp for lp in ce if lp[0] == "for" and lp[2] == ("a", e, "t")]
+    from .common import dict_loops
+    loops = [x[0] for x in dict_loops(ce, ("a", e, "t"), top_only=True)]
+    terms = [x[2] for x in dict_loops(ce, ("a", e, "t"), top_only=True)]
     ctx.site(fe.where, "evalexpr == constant + sum of coefficients whose literal has value 1")
     ok = False
     if len(loops) == 1:
-        t = ("s", ("a", e, "t"), loops[0][1])
+        t = terms[0]
         val = ("c", ("a", S_, "value"), (("a", t, "L"),), ())
         acc = [st for st in atoms_of(loops[0][3], lambda x: x[0] == "aug" and x[1] == "Add" and x[3] == ("a", t, "c"))]
         guard = [st for st in loops[0][3] if st[0] == "if" and st[1] == mk_eq(val, k_num(1)) and len(st[2]) == 1 and st[2][0][0] == "aug" and st[3] == ()]
